@@ -257,6 +257,14 @@ def observe_mutate(sc, _box=None):
             elif k == "set_match":
                 m = set_match(b.steps(op[1]), val(op[2]), doc, cascade=op[3])
                 fin("match", [m.path_as_str, m.data_name], m.data)
+            elif k == "mset":
+                # set_match with a Match as data source: the k-th match of a source path
+                ms = list(itertools.islice(find_matches(b.steps(op[1]), doc), op[2] + 1))
+                if len(ms) <= op[2]:
+                    fin("nosrc", [], None, False)
+                else:
+                    m = set_match(b.steps(op[3]), val(op[4]), ms[op[2]], cascade=op[5])
+                    fin("match", [m.path_as_str, m.data_name], m.data)
             elif k == "pop":
                 if op[2][0] == "none":
                     r = pop(b.steps(op[1]), doc)
